@@ -101,6 +101,52 @@ def check_model(ctx, label, spec, tasks, results):
     return True
 
 
+# ---------------------------------------------------------------------------------- parameter objects (golden corpus of the pinned release)
+OBJ_VALUES = [0, 1, -3, 2.5, True, None, 'x', '', "it's", 'say "hi"', 'a b', 'é', {'b': 1, 'a': 2}, {'z': {'y': 0, 'x': [1]}, 'a': "q'"},
+              ['q"uote', {'k2': 0, 'k1': [1]}], [[], {}], 1e16]
+
+
+def object_case(root, line):
+    """build a one-task chain whose parameter `obj` is (or contains) an object of the class in `line` -> {repr, params_repr} or {error}"""
+    import shutil
+    from taskchain import Config
+    from tcv.props import c02
+    spec = {'classes': {'K0': {'name': 'o', 'group': '', 'params': [{'name': 'obj'}], 'inputs': [], 'kind': 'json', 'run_args': []}},
+            'files': {}, 'main': None}
+    modname = gen.fresh_modname()
+    b = pl.materialize(spec, root, modname=modname)
+    f = root.joinpath(*modname.split('.')).with_suffix('.py')
+    f.write_text(f.read_text() + c02.AO_PRELUDE + line['src'])
+    try:
+        mod = b.module()
+        defn = {'class': f"{modname}.{line['decl']['cls']}", 'kwargs': dict(line['kwargs'])}
+        val = {None: defn, 'list': [defn, 1], 'dict': {'k': defn, 'n': [defn]}}[line['nest']]
+        t = Config(root / 'data', name='c', data={'tasks': [getattr(mod, pl.pyname('K0'))], 'obj': val}).chain().tasks['o']
+        o = t.params['obj']
+        o = {None: lambda: o, 'list': lambda: o[0], 'dict': lambda: o['k']}[line['nest']]()
+        # (the module name is generated per run: it is part of the text and is masked)
+        return {'repr': o.repr().replace(modname, '<module>'), 'params_repr': (t.params.repr or '').replace(modname, '<module>')}
+    except Exception as e:      # noqa
+        return {'error': f'{type(e).__name__}: {e}'[:200]}
+    finally:
+        b.cleanup_module()
+        shutil.rmtree(root, ignore_errors=True)
+
+
+def golden_objects(ctx, root):
+    """parameter objects: the text an AutoParameterObject contributes to the key is the one release 1.4.0 produced (frozen corpus
+    `corpus/c12_objects.jsonl`, captured from the pinned commit by tools/capture_golden_objects.py)"""
+    f = VERIF / 'corpus' / 'c12_objects.jsonl'
+    lines = [json.loads(l) for l in f.read_text().split('\n') if l.strip()]
+    for k, line in enumerate(lines if ctx.thorough else lines[ctx.seed % 2::2]):
+        case = {'golden': 'parameter object', 'decl': line['decl'], 'kwargs': line['kwargs'], 'nested_in': line['nest']}
+        ctx.case(case, nontrivial=len(line['kwargs']) >= 2); ctx.count('golden-objects')
+        got = object_case(root / f'gobj{k}', line)
+        if got != line['expect']:
+            ctx.fail('the text a parameter object contributes to the key differs from the reference scheme (release 1.4.0): results stored '
+                     'under the earlier key are orphaned', case, {'now': got, 'reference': line['expect']})
+
+
 def run(ctx, generated_only=False):
     from tcv.quiet import quiet
     quiet()
@@ -184,6 +230,8 @@ def run(ctx, generated_only=False):
                             ctx.fail(f'{side} file is not beside the result', {'module': spec['module'], 'task': t['fullname']}, t['expect'][side])
                     ctx.count('on-disk')
         b.cleanup_module()
+    if not generated_only:
+        golden_objects(ctx, root)
     # ---- sha256 of the driver vs hashlib
     import hashlib
     texts = [o['text'] for o in out if 'text' in o][:2000]
